@@ -20,6 +20,11 @@ that kind is installed on a real ContactlessFrontend, one fault-free
              command) at every host command index of the exchange
   udp        datagram / socket faults of the UDP driver
   mixed      random combinations (two faults, random frames, random bits)
+  faultseq   fault sequences: a fault at one host command followed by a
+             failing / timing-out write or read among the transport
+             operations right behind it (cancel ACK, next command), a link
+             that is dead from then on, or a second fault at the next host
+             commands
   listen-hist  listen side: histories of 2-4 exchange() calls on one frontend
              (send_data a response, b"" or None = keep silence), a status /
              host-link fault at each call and host command; oracle on every
@@ -921,6 +926,168 @@ def run_mixed(case, ctx):
         ctx.nontrivial()
 
 
+# ------------------------------------------------------------- leg faultseq
+# Fault SEQUENCES on the host link.  The legs above put one fault on one host
+# command (mixed: 1-3 faults on different commands, at random).  A reader that
+# is unplugged, resets or hangs in the middle of a command produces two faults
+# in a row: the response read times out AND the cancel / the next command can
+# not be written any more; an I/O error is followed by a timeout; the ACK
+# stays out and the retry fails ...  Here the first fault is a per-command
+# fault as before (host command index ``at``) and the second one strikes the
+# transport operations that FOLLOW the frame of that command:
+#   ["w", j, errno]     the j-th write() after it raises IOError(errno)
+#                       (j = 0: the very next frame the driver writes - the
+#                       ACK that cancels the command, or the next command)
+#   ["r", j, errno]     the j-th read() after it raises IOError(errno);
+#                       ETIMEDOUT = that read times out, what the chip queued
+#                       stays queued (a late answer)
+#   ["dead", k, errno]  every transport operation from the k-th one on raises
+#                       IOError(errno): the reader is gone
+#   ["cmd", d, fault]   a second per-command fault at host command at + d
+SEQ_ERRNOS = (errno.EIO, errno.ENODEV, errno.ETIMEDOUT)
+
+
+class OpFaults(object):
+    """wraps write() / read() of one link instance: counts the transport
+    operations that follow the frame of host command ``at`` and applies the
+    second-stage fault ``then`` to them"""
+
+    def __init__(self, link, at, then):
+        self.hit = 0
+        self.after = False      # the frame of command ``at`` was written
+        self.nop = self.nw = self.nr = 0
+        inner_w, inner_r = link.write, link.read
+
+        def strike(kind, timeout):
+            j = self.nw if kind == "w" else self.nr
+            k = self.nop
+            self.nop += 1
+            if kind == "w":
+                self.nw += 1
+            else:
+                self.nr += 1
+            if (then[0] == kind and then[1] == j) or \
+                    (then[0] == "dead" and k >= then[1]):
+                self.hit += 1
+                if kind == "r" and then[2] == errno.ETIMEDOUT:
+                    simchip.CLOCK.sleep((timeout or 0) / 1000.0)
+                raise IOError(then[2], os.strerror(then[2]))
+
+        def write(frame):
+            if self.after:
+                strike("w", None)
+            try:
+                return inner_w(frame)
+            finally:
+                if link.armed and len(link.cmds) > at:
+                    self.after = True
+
+        def read(timeout=0):
+            if self.after:
+                strike("r", timeout)
+            return inner_r(timeout)
+        if then[0] in ("w", "r", "dead"):
+            link.write, link.read = write, read
+
+
+def seq_first_faults(driver, code):
+    """first faults: what the host link does to the answer of one command"""
+    fam = linkfamily(driver)
+    F = [["timeout"], ["errframe"], ["ioerr", errno.EIO, "rsp"],
+         ["ioerr", errno.ENODEV, "write"], ["trunc", 4], ["payload", 0],
+         ["random", b"\x00\x00\xff\x00\xff\x00"]]       # a second ACK
+    if fam != "acr122":
+        F += [["noack"], ["skipack"], ["ioerr", errno.EIO, "ack"]]
+    if has_status(driver, code):
+        F += [["status", 0x01]]
+    return F
+
+
+SEQ_SECOND_CMD = (["timeout"], ["ioerr", errno.EIO, "rsp"], ["errframe"],
+                  ["noack"], ["ioerr", errno.ENODEV, "write"])
+
+
+def seq_then(driver):
+    G = [["w", j, e] for j in (0, 1) for e in SEQ_ERRNOS]
+    G += [["r", j, e] for j in (0, 1, 2) for e in SEQ_ERRNOS]
+    G += [["dead", k, e] for k in (0, 1, 2, 3)
+          for e in (errno.ENODEV, errno.EIO)]
+    for d in (1, 2):
+        for f in SEQ_SECOND_CMD:
+            if driver == "acr122" and f[0] == "noack":
+                continue
+            G.append(["cmd", d, list(f)])
+    return G
+
+
+def enum_faultseq(tier, seed):
+    q = tier == "quick"
+    for d, k in COMBOS:
+        if d == "udp":
+            continue            # no host link; datagram events: leg udp
+        seq, _ = learn(d, k)
+        idxs = list(range(len(seq)))
+        if len(seq) > 8 and q:
+            idxs = [i for i in idxs if i < 4 or i >= len(seq) - 3]
+        for at in idxs:
+            for f in seq_first_faults(d, seq[at][0]):
+                for g in seq_then(d):
+                    # the reader disappearing right behind a fault (next
+                    # write / read, dead link) is always run; the rest of the
+                    # grid is thinned in the quick tier
+                    near = g[0] != "cmd" and g[1] <= 1 or \
+                        (g[0] == "dead" and g[1] <= 2)
+                    if q and not near and not keep(seed, 0.4, d, k, at,
+                                                   f, g):
+                        continue
+                    yield {"driver": d, "kind": k, "at": at, "fault": f,
+                           "then": g}
+
+
+def run_faultseq(case, ctx):
+    drv, kind = case["driver"], case["kind"]
+    fault, then = case["fault"], case["then"]
+    sc = scenario(drv, kind)
+    seq, _ = learn(drv, kind)
+    at = case["at"] % len(seq)
+    dev, link = simchip.build(drv)
+    install(sc, dev, link)
+    phase = phase_of(drv, sc, seq[at][0], at)
+    cls = "%s/seq/%s+%s" % (fault_class(drv, phase, fault, seq[at][1]),
+                            then[0], then[2][0] if then[0] == "cmd" else
+                            {errno.ETIMEDOUT: "timeout"}.get(then[2], "ioerr"))
+    ctx.set_class(cls)
+    ctx.label("driver:" + drv, "first:" + fault[0], "then:" + then[0],
+              "phase:" + phase)
+    script = {at: fault}
+    if then[0] == "cmd":
+        script[at + then[1]] = then[2]
+    link.script = script
+    ops = OpFaults(link, at, then)
+    clf = simchip.frontend(dev)
+    clf.target = sc.target
+    link.arm()
+    what = "%s %s fault %r at host command %d, then %r" % (drv, kind, fault,
+                                                           at, then)
+    tag, val = classify_outcome(lambda: clf.exchange(sc.send, sc.timeout),
+                                what)
+    tag = check_general(sc, tag, val, what)
+    ctx.label("outcome:" + tag)
+    second = ops.hit > 0 or (then[0] == "cmd"
+                             and len(link.cmds) > at + then[1])
+    if second:
+        ctx.label("second-fault-applied")
+        ctx.nontrivial()
+    else:
+        # only the first fault happened: the single-fault mapping applies
+        want = expected_for_hostfault(drv, sc, phase, fault)
+        if fault[0] != "status" and want is not ANY and tag not in want:
+            raise Violation("wrong-error-mapping", "%s -> %s (%s), expected "
+                            "%s" % (what, tag, val, "/".join(sorted(want))))
+    ctx.note({"outcome": tag, "second_applied": second,
+              "ops_after": ops.nop})
+
+
 # ---------------------------------------------------------- leg listen-hist
 # Histories on the listen side.  After activation as a LocalTarget the upper
 # layers call exchange() again and again on the same frontend: with a response
@@ -1370,6 +1537,28 @@ LEGS = [
              "values) at random host command indices; general oracle only; "
              "non-trivial = more than one fault or a fault at a preparatory "
              "command."),
+    Leg("faultseq", run=dev_known(run_faultseq), enum=enum_faultseq,
+        exhaustive=True, shards_quick=16, shards_thorough=16,
+        rule="host-link fault SEQUENCES: every driver x kind (no udp) x "
+             "every host command index of the exchange (quick: first 4 and "
+             "last 3 of sequences longer than 8) x first fault {read "
+             "timeout, no ACK, missing ACK, second ACK, error frame, EIO at "
+             "ACK / response, ENODEV at write, truncated frame, empty "
+             "payload, non-zero status} x second fault {the j-th write (j = "
+             "0, 1) / the j-th read (j = 0..2) that follows the frame of the "
+             "faulted command raises IOError(EIO | ENODEV | ETIMEDOUT; a "
+             "read timeout leaves the chip's frames queued = late answer), "
+             "the link is dead (ENODEV / EIO on every operation) from the "
+             "k-th following operation on (k = 0..3), a second per-command "
+             "fault {timeout, EIO at response, error frame, no ACK, ENODEV "
+             "at write} at the next or next-but-one host command}; the quick "
+             "tier runs every combination whose second fault strikes within "
+             "the next two writes / reads or kills the link within three "
+             "operations and a seeded 40 % of the rest.  General oracle of "
+             "the property (bytes-like data / CommunicationError subclass / "
+             "IOError); when the exchange ended before the second fault "
+             "could strike, the single-fault mapping of leg hostfault.  "
+             "Non-trivial = the second fault was applied."),
     Leg("listen-hist", run=dev_known(run_listen_hist), enum=enum_listen_hist,
         exhaustive=True, shards_quick=16, shards_thorough=16,
         rule="listen-side histories on one frontend: every driver x listen "
